@@ -584,11 +584,11 @@ Proof.
         destruct (Iok Hne1) as [He Hf]. repeat split; auto. intros ->. discriminate.
     + (* spawned, pending *)
       exists gw, (gq ++ [(id, QWait (wadd (base s) (lenN (queue s))))]).
-      eapply push_inv with (s := s); eauto; cbn [push_back base queue response
-        response_idx error spawned out panicked slot_of snd]; auto.
+      apply (push_inv _ s gw gq _ id _ (QWait (wadd (base s) (lenN (queue s)))) _ I Ho Hlen Hfresh);
+        cbn [push_back base queue response response_idx error spawned out panicked slot_of snd]; auto.
       * intros x E. injection E as <-. now rewrite Hlq.
       * intros _ r0. discriminate.
-      * cbn. auto.
+      * cbn [st_ok]. auto.
       * rewrite Hr. intros i E. injection E as <-. apply in_or_app. left. now apply Iinl.
       * intros i x Hi. apply in_or_app. apply in_app_or in Hi as [Hi|[Hi|[]]]; [left; now apply Isp|].
         right. left. now injection Hi as <- <-.
@@ -622,11 +622,11 @@ Proof.
            destruct (Iok Hne1) as [He Hf]. split; auto. rewrite He. destruct r; auto; discriminate.
       * (* something queued, no call inline: the result waits in a ready slot *)
         exists gw, ((q0 :: gq0) ++ [(id, QReady r)]).
-        eapply push_inv with (s := s); eauto; cbn [push_back base queue response
-          response_idx error spawned out panicked slot_of snd]; auto.
+        apply (push_inv _ s gw (q0 :: gq0) _ id _ (QReady r) _ I Ho Hlen Hfresh);
+          cbn [push_back base queue response response_idx error spawned out panicked slot_of snd]; auto.
         -- discriminate.
         -- discriminate.
-        -- cbn. destruct r; auto; discriminate.
+        -- cbn [st_ok no_err_p]. destruct r; auto; discriminate.
         -- now rewrite Iq.
         -- rewrite Hr. discriminate.
         -- intros i x Hi. apply in_or_app. left. now apply Isp.
@@ -634,11 +634,11 @@ Proof.
         -- rewrite F7. cbn [option_map]. rewrite Hr in Ipend. exact Ipend.
     + (* no call inline: this one becomes the inline call *)
       exists gw, (gq ++ [(id, QWait (wadd (base s) (lenN (queue s))))]).
-      eapply push_inv with (s := s); eauto; cbn [push_back base queue response
-        response_idx error spawned out panicked slot_of snd]; auto.
+      apply (push_inv _ s gw gq _ id _ (QWait (wadd (base s) (lenN (queue s)))) _ I Ho Hlen Hfresh);
+        cbn [push_back base queue response response_idx error spawned out panicked slot_of snd]; auto.
       * intros x E. injection E as <-. now rewrite Hlq.
       * intros _ r0. discriminate.
-      * cbn. auto.
+      * cbn [st_ok]. auto.
       * intros i E. injection E as <-. apply in_or_app. right. now left.
       * intros i x Hi. apply in_or_app. left. now apply Isp.
       * intros i E. injection E as <-. exact F9.
